@@ -163,6 +163,7 @@ type tmxClient struct {
 	raw     []tmxChunk
 	term    bytes.Buffer
 	c2s     atomic.Int64
+	c2sTail []byte
 	park    chan struct{}
 	dialled atomic.Int32
 }
@@ -194,6 +195,12 @@ type tmxInW struct{ cl *tmxClient }
 
 func (w tmxInW) Write(p []byte) (int, error) {
 	w.cl.c2s.Add(int64(len(p)))
+	w.cl.mu.Lock()
+	w.cl.c2sTail = append(w.cl.c2sTail, p...)
+	if n := len(w.cl.c2sTail); n > 600 {
+		w.cl.c2sTail = append([]byte(nil), w.cl.c2sTail[n-600:]...)
+	}
+	w.cl.mu.Unlock()
 	return w.cl.ptmx.Write(p)
 }
 func (w tmxInW) Close() error { return nil }
@@ -400,6 +407,7 @@ type tmxXferResult struct {
 	usable     bool
 	paneWidth  int
 	hup        bool
+	c2sTail    string // the last bytes the client wrote towards the server
 	lateDone   bool // chatty-stop: the client came back once the other pane had been silenced
 }
 
@@ -753,6 +761,7 @@ func (r *tmxRunner) transfer(x tmxXfer) *tmxXferResult {
 	cl.mu.Lock()
 	res.termText = cl.term.String()[termFrom:]
 	res.chunks = append([]tmxChunk(nil), cl.raw[rawFrom:]...)
+	res.c2sTail = string(cl.c2sTail)
 	cl.mu.Unlock()
 
 	// destination
@@ -996,6 +1005,45 @@ func tmxScenarios(c *ctx) []*tmxScn {
 	add("c-up", "control", nil, up("flat", "ok", false, "-y"), down("flat", "ok", false))
 	add("c-stop", "control", nil, up("big", "stop-key", false), down("one", "ok", false))
 	add("b-down", "binary", nil, down("flat", "ok", false), up("flat", "ok", false))
+	if c.thorough() {
+		// the fault-free scenarios again, several times, with other terminal sizes, pane widths, trees and options
+		shapes := []string{"small", "flat", "dir", "same", "medium", "one"}
+		for rep := 0; rep < 6; rep++ {
+			for _, topo := range []string{"normal", "relay", "control", "binary"} {
+				topo := topo
+				var xs []tmxXfer
+				for k := 0; k < 2+c.rng.Intn(2); k++ {
+					sh := shapes[c.rng.Intn(len(shapes))]
+					var flags []string
+					if sh == "dir" {
+						flags = append(flags, "-d")
+					}
+					if c.rng.Intn(3) == 0 && sh != "same" {
+						flags = append(flags, "-y")
+					}
+					if c.rng.Intn(4) == 0 {
+						flags = append(flags, "-b")
+					}
+					if c.rng.Intn(4) == 0 {
+						flags = append(flags, "-e")
+					}
+					if c.rng.Intn(4) == 0 {
+						flags = append(flags, "-B", []string{"1k", "64k", "1M"}[c.rng.Intn(3)])
+					}
+					xs = append(xs, tmxXfer{upload: c.rng.Intn(2) == 0, flags: flags, shape: sh, end: "ok", tie: sh != "medium"})
+				}
+				add(fmt.Sprintf("t%d-%s", rep, topo), topo, func(s *tmxScn) {
+					s.cols = 60 + c.rng.Intn(120)
+					s.rows = 20 + c.rng.Intn(30)
+					if topo != "control" && c.rng.Intn(2) == 0 {
+						s.narrow = 12 + c.rng.Intn(30)
+					}
+					s.status = c.rng.Intn(2) == 0
+					s.sync = c.rng.Intn(2) == 0
+				}, xs...)
+			}
+		}
+	}
 	return out
 }
 
@@ -1088,6 +1136,12 @@ func tmxJudge(c *ctx, r *tmxResult, junkT *c16Real) {
 				x.rc, x.dur.Round(time.Millisecond), x.siBefore, x.siDuring, x.siAfter, tmxFirstLine(x.uploadErr), x.notes, x.diffs)
 			if os.Getenv("TMX_DEBUG") == "2" {
 				fmt.Fprintf(os.Stderr, "   pane=%q\n   term=%q\n", tailStr(x.paneText, 600), tailStr(x.termText, 1500))
+				fmt.Fprintf(os.Stderr, "   c2s-tail=%q\n", x.c2sTail)
+				n := len(x.chunks)
+				for i := max(0, n-12); i < n; i++ {
+					ch := x.chunks[i]
+					fmt.Fprintf(os.Stderr, "   chunk %d at=%v xfer=%v len=%d head=%q tail=%q\n", i, ch.at.Round(time.Millisecond), ch.xfer, len(ch.b), ch.b[:min(len(ch.b), 80)], ch.b[max(0, len(ch.b)-200):])
+				}
 			}
 		}
 		c.note(x.started, "tmux "+x.desc+fmt.Sprintf(" => started=%v rc=%s names=%s", x.started, x.rc, strings.Join(x.names, ",")))
@@ -1140,15 +1194,26 @@ func tmxJudge(c *ctx, r *tmxResult, junkT *c16Real) {
 			c.violate(tmxKey("hang", kind), "a transfer through tmux did not come to an end within the deadline", detail(""))
 			continue
 		}
+		// a download in which a redraw of tmux landed in the middle of a long line (known finding): the line is lost,
+		// whatever the scenario was about (the client reports a decoding error, a stop is reported as that error, the
+		// server's own message arrives after the client has left and shows on the terminal)
+		if !x.x.upload && sc.topo != "control" && !strings.Contains(strings.Join(x.x.flags, " "), "-b") {
+			if where := tmxRedrawInsideLine(x); where != "" {
+				why := "status line redraw (window renamed, status job)"
+				if sc.resize {
+					why = "the user's terminal was resized"
+				} else if sc.busy != "" {
+					why = "another pane printed"
+				}
+				c.count("redraw-inside-line:" + why)
+				c.violate(tmxKey("redraw-inside-line"), "the server writes a long DATA line to the (non-blocking) client tty in several pieces and a redraw of tmux, not bracketed by synchronized-update strings, lands in the middle of it: the payload is corrupted and the download fails",
+					detail(why+"; "+where+"; "+strings.Join(x.diffs, "; ")))
+				continue
+			}
+		}
 		// outcome
 		switch x.x.end {
 		case "ok", "other-pane-line":
-			if sc.resize && (x.uploadErr != nil || len(x.diffs) > 0) {
-				c.count("resize:transfer-failed")
-				c.violate(tmxKey("resize-during-transfer"), "the user's terminal is resized while the transfer runs: tmux redraws the whole window (bare line feeds, cursor addressing, also in the middle of a long line that the server writes in several pieces) and the transfer fails",
-					detail(strings.Join(x.diffs, "; ")))
-				continue
-			}
 			if x.uploadErr != nil || !strings.HasPrefix(x.rc, "0:") {
 				c.violate(tmxKey("no-success", kind, x.x.shape), "a fault-free transfer through a real tmux did not succeed", detail(""))
 			} else if len(x.diffs) > 0 {
@@ -1446,6 +1511,37 @@ func hexDecode(s string) ([]byte, error) {
 		out[i] = byte(v)
 	}
 	return out, nil
+}
+
+// tmxRedrawInsideLine looks, in what the pty delivered while the client was transferring, for tmux output that begins in
+// the middle of a base64 protocol line (the server wrote the line in several pieces) and is not bracketed by the
+// synchronized-update strings: the one shape of "tmux noise inside a line" the reader cannot undo.
+func tmxRedrawInsideLine(x *tmxXferResult) string {
+	var flat []byte
+	for _, ch := range x.chunks {
+		if ch.xfer {
+			flat = append(flat, ch.b...)
+		}
+	}
+	isB64 := func(b byte) bool {
+		return b >= 'A' && b <= 'Z' || b >= 'a' && b <= 'z' || b >= '0' && b <= '9' || b == '+' || b == '/' || b == '='
+	}
+	for i := 24; i < len(flat); i++ {
+		if flat[i] != 0x1b || bytes.HasPrefix(flat[i:], []byte("\x1bP=")) {
+			continue
+		}
+		run := true
+		for j := i - 24; j < i; j++ {
+			if !isB64(flat[j]) {
+				run = false
+				break
+			}
+		}
+		if run {
+			return fmt.Sprintf("offset %d of %d: %q", i, len(flat), flat[i-24:min(len(flat), i+160)])
+		}
+	}
+	return ""
 }
 
 // tmxInNoise: the ESC at i continues a run of tmux output (there is another ESC within the 200 bytes before it and no
